@@ -207,6 +207,7 @@ type RegOp struct {
 	Tun  int    `json:"tun,omitempty"`
 	Via  string `json:"via,omitempty"` // rpc/ready/wait: "all" or "key:<k>"
 	Ms   int64  `json:"ms,omitempty"`
+	G    int    `json:"g,omitempty"` // registry stress: the goroutine that issues this operation
 }
 
 func (c *Case) JSON() []byte {
